@@ -7,6 +7,8 @@ def run(m, tier):
     results = regex_rules.c05_rules(m)
     results.append(rr.rule_quote_state(m, "C05.R6"))
     results.append(rr.rule_splitquote(m, "C05.R7"))
+    results.append(rr.rule_fixed_continuation(m, "C05.R9"))
+    results.append(rr.rule_inline_table(m, "C05.R10"))
     expl = ("Decides structural clauses of C05 by bounded-exhaustive evaluation of the pure string predicates of the reader, interpreted "
             "from their AST (never imported): the form detector (voting expression + regex literal) votes free for no label field, "
             "comment line or fixed-form continuation line and for every statement starting in columns 1-5 / trailing '&'; "
